@@ -682,6 +682,38 @@ func runC18(c *Ctx) {
 					if !(leaf.Op == "call" && (leaf.Aux == "strings.Index" || leaf.Aux == "strings.IndexByte" || leaf.Aux == "strings.IndexRune") && len(leaf.Args) == 2 && leaf.Args[0] == g2.ParamExprs(fcm)[0]) && bad == "" {
 						bad = "the returned position is " + clip(u2.Show(leaf), 80) + ", not the first occurrence of a marker character in the line: a later '#' or '$' of a hosts-file comment is taken for a cosmetic marker and the line is dropped"
 					}
+					// nothing behind the comment sign is a marker: the part of the line in front of an accepted
+					// marker holds no '#'.  That is so when the marker character is '#' itself (first occurrence),
+					// and has to be tested for every other marker character ('$' of the HTML-filtering markers).
+					if bad == "" && leaf.Op == "call" && len(leaf.Args) == 2 {
+						text := g2.ParamExprs(fcm)[0]
+						hashB := u2.ConstVal(constantInt('#'), types.Typ[types.Uint8])
+						free := False
+						if leaf.Args[1] == hashB || leaf.Args[1] == u2.Str("#") || leaf.Args[1] == u2.ConstVal(constantInt('#'), types.Typ[types.Int32]) {
+							free = True
+						} else {
+							intT := types.Typ[types.Int]
+							notFound := func(x *E) Ref {
+								return u2.bdd.Or(u2.ToBool(u2.Eq(x, u2.Int(-1))), u2.ToBool(u2.Lt(x, u2.Int(0))))
+							}
+							free = u2.bdd.Or(free, u2.ToBool(u2.Eq(leaf.Args[1], hashB)))
+							for _, head := range []*E{u2.Slice(text, nil, leaf, nil, text.Typ), u2.Slice(text, u2.Int(0), leaf, nil, text.Typ)} {
+								free = u2.bdd.Or(free, notFound(u2.mk("call", "strings.IndexByte", intT, head, hashB)))
+								free = u2.bdd.Or(free, notFound(u2.mk("call", "strings.Index", intT, head, u2.Str("#"))))
+								free = u2.bdd.Or(free, notFound(u2.mk("call", "strings.IndexRune", intT, head, u2.ConstVal(constantInt('#'), types.Typ[types.Int32]))))
+								free = u2.bdd.Or(free, u2.bdd.Not(u2.ToBool(u2.mk("call", "strings.Contains", types.Typ[types.Bool], head, u2.Str("#")))))
+								free = u2.bdd.Or(free, u2.bdd.Not(u2.ToBool(u2.mk("call", "strings.ContainsRune", types.Typ[types.Bool], head, u2.ConstVal(constantInt('#'), types.Typ[types.Int32])))))
+							}
+							for _, first := range []*E{u2.mk("call", "strings.IndexByte", intT, text, hashB), u2.mk("call", "strings.Index", intT, text, u2.Str("#")), u2.mk("call", "strings.IndexRune", intT, text, u2.ConstVal(constantInt('#'), types.Typ[types.Int32]))} {
+								free = u2.bdd.Or(free, notFound(first))
+								free = u2.bdd.Or(free, u2.bdd.Not(u2.ToBool(u2.Lt(first, leaf))))
+								free = u2.bdd.Or(free, u2.ToBool(u2.Lt(leaf, first)))
+							}
+						}
+						if !u2.bdd.Implies(u2.bdd.And(lc, r.Cond), free) {
+							bad = "a marker is accepted although a '#' stands in front of it: in '0.0.0.0 host # a$$b' the text of the hosts-file comment is taken for an HTML-filtering marker, the line is rejected as a broken cosmetic rule and its names are lost"
+						}
+					}
 				}
 			}
 			if !found {
